@@ -157,7 +157,7 @@ def variant(rng, rec, tag):
     """A second, distinct access of the same subject: the record with exactly one meaningful field changed (new tag in comm only)."""
     pools = {"unix": [("peer_addr", ["none", "@/tmp/.ICE-unix/2211", "@/tmp/.X11-unix/X1"]), ("addr", ["none", "@/tmp/.X11-unix/X0", "@/tmp/dbus-fixed"])],
              "signal": [("signal", ["term", "kill", "hup", "usr1", "int"])], "ptrace": [("peer", PROFILES)], "cap": [("capname", ["net_admin", "sys_ptrace", "chown", "kill"])],
-             "net": [("sock_type", ["stream", "dgram", "raw"])], "dbus": [("member", ["Get", "Changed", "Ping", "Set"])], "file": [("requested_mask", ["r", "w", "k", "m"])]}
+             "net": [("sock_type", ["stream", "dgram", "raw"])], "dbus": [("member", ["Get", "Changed", "Ping", "Set"])], "file": [("requested_mask", ["r", "w", "k", "m", "a", "c", "d", "ac", "rw", "wr"])]}
     opts = pools.get(rec["cls"])
     if not opts:
         return None
